@@ -69,7 +69,7 @@ pub fn run(ctx: &Ctx, rep: &mut Report) {
         return;
     }
     // the whole corpus is replayed by every shard (cheap); judgements are partitioned
-    let games = match pgn::read_dir("/repo/book") {
+    let games = match pgn::read_dir(&format!("{}/book", std::env::var("VERIF_REPO").unwrap_or_else(|_| "/repo".into()))) {
         Ok(g) => g,
         Err(e) => {
             rep.inconclusive(&format!("book directory unreadable: {}", e));
